@@ -128,6 +128,9 @@ class TWorld:
     def advance(self, dt):
         self.sched.advance(dt, self.pick)
 
+    def advance_to(self, t):
+        self.sched.advance_to(t, self.pick)
+
     def next_deadline(self):
         return self.sched.next_deadline()
 
